@@ -12,6 +12,7 @@ package main
 
 import (
 	"context"
+	"log/slog"
 	"os"
 	"runtime"
 	"strconv"
@@ -20,6 +21,7 @@ import (
 
 	"reservoir/cache"
 	"reservoir/config"
+	"reservoir/logging"
 	"reservoir/metrics"
 	"reservoir/utils/duration"
 )
@@ -232,4 +234,30 @@ func evRetime(base string, backend string, waitMs, newMs int) string {
 		return "follows:latest"
 	}
 	return "follows:older;cycles=" + strconv.Itoa(cycles)
+}
+
+// `ev loglevel <level>`: the logging component (logging.Init, once per process) follows the configured log level: after an
+// accepted change the process logs at exactly the new level (records below it are dropped, records at it are written).
+var evLogCfg *config.Config
+
+func evLogLevel(base string, lvl int) string {
+	if evLogCfg == nil {
+		evLogCfg = config.NewDefault()
+		evLogCfg.Logging.ToStdout.Overwrite(false)
+		evLogCfg.Logging.File.Overwrite(base + "/loglevel-test.log")
+		logging.Init(evLogCfg)
+	}
+	evLogCfg.Logging.Level.Overwrite(slog.Level(lvl))
+	ok := func() bool {
+		l := slog.Default()
+		return l.Enabled(context.Background(), slog.Level(lvl)) && !l.Enabled(context.Background(), slog.Level(lvl-1))
+	}
+	dl := time.Now().Add(time.Second)
+	for !ok() && time.Now().Before(dl) {
+		time.Sleep(200 * time.Microsecond)
+	}
+	if ok() {
+		return "follows:latest"
+	}
+	return "follows:older"
 }
